@@ -560,9 +560,12 @@ class MinFlowDecomp(pathmodel.AbstractPathModelDAG): # Note that we inherit from
 
         self._lowerbound_k = self.optimization_options.get("lowerbound_k", 1)
 
-        all_weights = set({int(self.G.edges[e][self.flow_attr]) for e in self.G.edges() if self.flow_attr in self.G.edges[e]})
+        # Only the flow values of the edges that are not ignored have to be explained, so only they count here
+        edges_to_ignore_set = set(self.edges_to_ignore)
+        all_weights = set({int(self.G.edges[e][self.flow_attr]) for e in self.G.edges() if self.flow_attr in self.G.edges[e] and e not in edges_to_ignore_set})
         
-        self._lowerbound_k = max(self._lowerbound_k, math.ceil(math.log2(len(all_weights))))
+        if len(all_weights) > 0:
+            self._lowerbound_k = max(self._lowerbound_k, math.ceil(math.log2(len(all_weights))))
 
         # as in the k-models, the synthetic source/sink edges are passed together with the edges to ignore
         self._lowerbound_k = max(self._lowerbound_k, stG.get_width(edges_to_ignore=list(stG.source_sink_edges.union(self.edges_to_ignore))))
